@@ -1742,7 +1742,7 @@ impl SocketAddress for SocketAddrV6 {
 
 impl SocketAddress for unix::net::SocketAddr {
     #[doc(hidden)] // Not part of stable API.
-    type Storage = libc::sockaddr_un;
+    type Storage = UnixAddressStorage;
 
     fn into_storage(self) -> Self::Storage {
         let mut storage = libc::sockaddr_un {
@@ -1760,6 +1760,12 @@ impl SocketAddress for unix::net::SocketAddr {
                 storage.sun_path.len(),
             )
         };
+        // NOTE: for path names (and unnamed addresses) we can pass the entire
+        // structure as the kernel looks for the terminating null byte. For
+        // abstract names all bytes are part of the name, including null
+        // bytes, so we need to pass the exact length.
+        #[allow(unused_mut)]
+        let mut length = size_of::<libc::sockaddr_un>();
         if let Some(pathname) = self.as_pathname() {
             let bytes = pathname.as_os_str().as_bytes();
             path[..bytes.len()].copy_from_slice(bytes);
@@ -1767,31 +1773,38 @@ impl SocketAddress for unix::net::SocketAddr {
             #[cfg(any(target_os = "android", target_os = "linux"))]
             if let Some(bytes) = self.as_abstract_name() {
                 path[1..][..bytes.len()].copy_from_slice(bytes);
+                length = mem::offset_of!(libc::sockaddr_un, sun_path) + 1 + bytes.len();
             }
 
             // Unnamed address, we'll leave it all zero.
         }
-        storage
+        UnixAddressStorage {
+            address: storage,
+            length: length as libc::socklen_t,
+        }
     }
 
     unsafe fn as_ptr(storage: &Self::Storage) -> (*const c_void, u32) {
-        let ptr = ptr::from_ref(storage).cast();
-        (ptr, size_of::<Self::Storage>() as u32)
+        let ptr = ptr::from_ref(&storage.address).cast();
+        (ptr, storage.length)
     }
 
     unsafe fn as_mut_ptr(storage: &mut MaybeUninit<Self::Storage>) -> (*mut c_void, u32) {
         (
+            // NOTE: `address` is the first field (using `repr(C)`).
             storage.as_mut_ptr().cast(),
-            size_of::<Self::Storage>() as u32,
+            size_of::<libc::sockaddr_un>() as u32,
         )
     }
 
     unsafe fn init(storage: MaybeUninit<Self::Storage>, length: u32) -> Self {
         debug_assert!(length as usize >= size_of::<libc::sa_family_t>());
-        let family = unsafe { ptr::addr_of!((*storage.as_ptr()).sun_family).read() };
+        // NOTE: only `address` is initialised (by the kernel), see `as_mut_ptr`.
+        let storage = storage.as_ptr().cast::<libc::sockaddr_un>();
+        let family = unsafe { ptr::addr_of!((*storage).sun_family).read() };
         debug_assert!(family == libc::AF_UNIX as libc::sa_family_t);
-        let path_ptr = unsafe { ptr::addr_of!((*storage.as_ptr()).sun_path) };
-        let length = length as usize - (path_ptr.addr() - storage.as_ptr().addr());
+        let path_ptr = unsafe { ptr::addr_of!((*storage).sun_path) };
+        let length = length as usize - (path_ptr.addr() - storage.addr());
         // SAFETY: the kernel ensures that at least `length` bytes are
         // initialised.
         let path = unsafe { slice::from_raw_parts::<u8>(path_ptr.cast(), length) };
@@ -1815,6 +1828,18 @@ impl SocketAddress for unix::net::SocketAddr {
     fn domain(&self) -> Domain {
         Domain::UNIX
     }
+}
+
+/// [`SocketAddress::Storage`] for [`unix::net::SocketAddr`].
+///
+/// [`SocketAddress::Storage`]: SocketAddress::Storage
+#[doc(hidden)] // Not part of stable API.
+#[allow(missing_debug_implementations)]
+#[repr(C)] // `address` MUST be the first field, see `as_mut_ptr`.
+pub struct UnixAddressStorage {
+    address: libc::sockaddr_un,
+    /// Length of `address`, only used when passing the address to the kernel.
+    length: libc::socklen_t,
 }
 
 /// When [`accept`]ing connections we're not interested in the address.
